@@ -627,3 +627,72 @@ def rebuild(t, f=None):
     if h == "sel":
         return ("sel", g(t[1]), g(t[2]), t[3])
     return tuple(g(x) if isinstance(x, tuple) else x for x in t)
+
+
+
+def ceval(t, env):
+    """concrete value of a term under env {variable term: int}; booleans for conditions.  ValueError on anything
+    that is not a closed bit-vector expression (calls, memory, opaque objects)."""
+    if t == TRUE:
+        return True
+    if t == FALSE:
+        return False
+    if not isinstance(t, tuple) or not t:
+        raise ValueError("not a term")
+    k = t[0]
+    if k == "k":
+        return t[2] & ((1 << t[1]) - 1)
+    if k == "v":
+        if t not in env:
+            raise ValueError("free variable %r" % (t[1],))
+        return env[t] & ((1 << t[2]) - 1)
+    if k == "zext":
+        return ceval(t[2], env)
+    if k == "trunc":
+        return ceval(t[2], env) & ((1 << t[1]) - 1)
+    if k == "sext":
+        w0 = width(t[2])
+        x = ceval(t[2], env)
+        return (x | (((1 << t[1]) - 1) ^ ((1 << w0) - 1))) if x >> (w0 - 1) else x
+    if k == "neg":
+        return (-ceval(t[2], env)) & ((1 << t[1]) - 1)
+    if k == "bnot":
+        return (~ceval(t[2], env)) & ((1 << t[1]) - 1)
+    if k == "op":
+        _, name, w, a, b = t
+        x, y, m = ceval(a, env), ceval(b, env), (1 << w) - 1
+        if name in ("udiv", "urem") and y == 0:
+            raise ValueError("division by zero")
+        return {"add": x + y, "sub": x - y, "mul": x * y, "and": x & y, "or": x | y, "xor": x ^ y,
+                "udiv": x // y if y else 0, "urem": x % y if y else 0}[name] & m if name in ("add", "sub", "mul", "and", "or", "xor", "udiv", "urem") else _bad(name)
+    if k == "sh":
+        _, name, w, x, amt = t
+        xv = ceval(x, env)
+        n = ceval(amt[2], env) % w
+        if name == "shl":
+            return (xv << n) & ((1 << w) - 1)
+        if name == "lshr":
+            return xv >> n
+        sx = xv - (1 << w) if xv >> (w - 1) else xv
+        return (sx >> n) & ((1 << w) - 1)
+    if k == "cmp":
+        _, opn, w, a, b = t
+        x, y = ceval(a, env), ceval(b, env)
+        if opn[0] == "s":
+            x = x - (1 << w) if x >> (w - 1) else x
+            y = y - (1 << w) if y >> (w - 1) else y
+            opn = "u" + opn[1:]
+        return {"eq": x == y, "ne": x != y, "ult": x < y, "ule": x <= y}[opn]
+    if k == "not":
+        return not ceval(t[1], env)
+    if k == "land":
+        return ceval(t[1], env) and ceval(t[2], env)
+    if k == "lor":
+        return ceval(t[1], env) or ceval(t[2], env)
+    if k == "ite":
+        return ceval(t[2], env) if ceval(t[1], env) else ceval(t[3], env)
+    raise ValueError("not evaluable: %s" % k)
+
+
+def _bad(name):
+    raise ValueError("operator %s" % name)
